@@ -147,6 +147,10 @@ pub fn check(rec: &RunRecord, reg: &Reg, which: &Which, cells: &mut Cells) -> Ve
                         if en.len() != 1 || en[0].0 != h.id() || !h.args.iter().all(|a| en[0].1[a.name] == args[a.name]) {
                             out.push(Finding::new("C10", "c10.query_route", op.idx, format!("{caller_cid}: querier `{}` with {} was routed to {:?}", method, args, en.iter().map(|x| (x.0, x.1)).collect::<Vec<_>>())));
                         }
+                        // the target answered: the helper hands that answer out (whatever value it is)
+                        if let (Some(err), Some(answer)) = (output.get("err"), n.result().get("ok")) {
+                            out.push(Finding::new("C10", "c10.query_value", op.idx, format!("{caller_cid}: querier `{}` failed with {} although the target answered {}", method, err, answer)));
+                        }
                         // the decoded response the caller got = the target's own value
                         if let (Some(got), Some((_, ex))) = (output.get("ok"), n.exits().into_iter().next()) {
                             let got_v: Value = got.as_str().and_then(|s| serde_json::from_str(s).ok()).unwrap_or(Value::Null);
